@@ -219,6 +219,55 @@ def catalogue():
     add("recreate_default", "Service without Default", "item", "impl Service for {M} {{}}", "Plain", "Rest")
     return C
 
+def api_restart_methods():
+    """R3 over the API of the *current* tree: every public method of a handle type or of the context that
+    takes only `self` and whose name says "restart" is an entry point of the rule "restart only for
+    restartable actors" - also methods that did not exist when the catalogue above was written."""
+    import re, glob
+    recv_of = {
+        "Addr": ("mut a: Addr<{A}>", "a"),
+        "WeakAddr": ("a: Addr<{A}>", "a.downgrade()"),
+        "OwningAddr": ("o: OwningAddr<{A}>", "o"),
+        "Context": ("ctx: &mut Context<{A}>", "ctx"),
+        "Sender": ("a: Addr<{A}>", "a.sender::<Unit1>()"),
+        "Caller": ("a: Addr<{A}>", "a.caller::<Resp1>()"),
+        "WeakSender": ("a: Addr<{A}>", "a.weak_sender::<Unit1>()"),
+        "WeakCaller": ("a: Addr<{A}>", "a.weak_caller::<Resp1>()"),
+    }
+    sig = re.compile(r"pub\s+(?:async\s+)?fn\s+(\w*restart\w*)\s*\(\s*(?:&\s*mut\s+self|&\s*self|mut\s+self|self)\s*,?\s*\)")
+    found = []
+    files = sorted(glob.glob("/repo/src/addr.rs") + glob.glob("/repo/src/addr/*.rs") + glob.glob("/repo/src/context.rs"))
+    for path in files:
+        ty = None
+        for line in open(path):
+            s = line.strip()
+            if s.startswith("impl"):
+                head = s.split("{")[0].split(" where")[0]
+                if " for " in head:
+                    head = head.split(" for ", 1)[1]
+                else:
+                    # drop the generics of the impl itself
+                    depth, i = 0, 4
+                    if head[4:5] == "<":
+                        for i, ch in enumerate(head[4:], 4):
+                            depth += ch == "<"
+                            depth -= ch == ">"
+                            if depth == 0:
+                                break
+                        i += 1
+                    head = head[i:]
+                m = re.match(r"\s*(?:crate::|super::)*(\w+)", head)
+                ty = m.group(1) if m else None
+                continue
+            m = sig.search(s)
+            if m and ty in recv_of and not s.startswith("//"):
+                found.append((ty, m.group(1)))
+    out = []
+    for ty, meth in sorted(set(found)):
+        params, expr = recv_of[ty]
+        out.append(dict(rule="restart_restartable", name=f"api:{ty}::{meth}", recv="api", body="", ill="Plain", ok="Rest", pre="", params=params, expr=expr, method=meth))
+    return out
+
 EXPECTED_CODES = {"E0277", "E0599", "E0271", "E0308", "E0282", "E0283", "E0284", "E0276"}
 
 def render_fn(fname, entry, ill, chain_steps):
@@ -229,6 +278,8 @@ def render_fn(fname, entry, ill, chain_steps):
     if entry["rule"] == "restart_restartable":
         actor = sub
         sub = ""
+    if recv == "api":
+        return f"pub fn {fname}({entry['params'].format(A=actor)}) {{\n    let mut x = {entry['expr']}; let _ = x.{entry['method']}();\n}}\n"
     if recv == "item":
         # wrap in a module so that twin and ill impls do not collide
         return f"mod {fname} {{ use super::*; {entry['body'].format(M=sub)} }}\n"
@@ -300,6 +351,8 @@ def build_batch(tag, fns):
         raise RuntimeError("cargo check failed without diagnostics:\n" + p.stderr[-2000:])
     return errors, world_errors, ok
 
+NOT_APPLICABLE = set()
+
 def check_programs(tag, programs):
     """programs: list of dicts(fname, entry, ill, chain).  returns list of violations"""
     fns = [(p["fname"], render_fn(p["fname"], p["entry"], p["ill"], p["chain"])) for p in programs]
@@ -307,8 +360,14 @@ def check_programs(tag, programs):
     if world_errors:
         raise RuntimeError(f"errors outside generated functions: {world_errors[:3]}")
     out = []
+    # an API-derived entry whose twin does not compile (a method that needs more than the generator knows)
+    # is not applicable - neither of the two verdicts says anything
+    na = {p["entry"]["name"] for p in programs if p["entry"]["recv"] == "api" and not p["ill"] and errors.get(p["fname"])}
+    NOT_APPLICABLE.update(na)
     for p, (_, text) in zip(programs, fns):
         codes = errors.get(p["fname"], [])
+        if p["entry"]["name"] in na:
+            continue
         if p["ill"]:
             if not codes:
                 out.append(dict(sig=f"C19/accepted/{p['entry']['rule']}/{p['entry']['name']}", program=p, source=text, detail="ill-typed program was accepted by the compiler"))
@@ -339,6 +398,8 @@ def main():
     t0 = time.time()
     rng = random.Random(seed)
     cat = catalogue()
+    api = api_restart_methods()
+    cat += api
     programs = []
     k = 0
     def mk(entry, ill, chain):
@@ -403,7 +464,7 @@ def main():
             nb += 1
             violations += check_programs(f"b{i // batch_size % 4}", programs[i:i + batch_size])
         # the twins alone must compile
-        twins = [p for p in programs if not p["ill"]][:600]
+        twins = [p for p in programs if not p["ill"] and p["entry"]["recv"] != "api"][:600]
         fns = [(p["fname"], render_fn(p["fname"], p["entry"], False, p["chain"])) for p in twins]
         _, world_errors, ok = build_batch("twins", fns)
         if not ok:
@@ -448,8 +509,8 @@ def main():
         samples.append(dict(rule=p["entry"]["rule"], entry=p["entry"]["name"], chain=p["chain"], ill_typed=render_fn(p["fname"], p["entry"], True, p["chain"]), twin=render_fn(p["fname"], p["entry"], False, p["chain"])))
     ev = dict(property_id="C19", tier=tier, seed=seed, level="exploration",
               coverage=dict(evaluations=len(programs), distinct_nontrivial=distinct,
-                            rule="grammar-generated client functions: rule in {handler required, unit response for fire-and-forget, no bypass through type-erased / weak handles, restart only for restartable actors, stream only on a non-restartable builder (and StreamHandler required), recreate-from-default / default spawns / Service require Default} x entry point x conversion chain of depth 0-3 on the receiver; every ill-typed function applies exactly one violation and is paired with its well-typed twin; one cargo check per batch, compiler errors mapped to functions by line; expected: ill-typed => at least one error with a type-checking code, twin => no error; every ill-typed program is non-trivial; distinct = (rule, entry, receiver, chain)",
-                            samples=samples, base_catalogue_entries=base_n, base_catalogue_exhaustive=True, chained_programs=chained, batches=nb, exhaustive=False),
+                            rule="grammar-generated client functions: rule in {handler required, unit response for fire-and-forget, no bypass through type-erased / weak handles, restart only for restartable actors (the catalogue's entries plus every public self-only method of a handle type / the context in the current tree whose name contains 'restart'), stream only on a non-restartable builder (and StreamHandler required), recreate-from-default / default spawns / Service require Default} x entry point x conversion chain of depth 0-3 on the receiver; every ill-typed function applies exactly one violation and is paired with its well-typed twin; one cargo check per batch, compiler errors mapped to functions by line; expected: ill-typed => at least one error with a type-checking code, twin => no error; every ill-typed program is non-trivial; distinct = (rule, entry, receiver, chain)",
+                            samples=samples, api_derived_entries=[e["name"] for e in api], api_derived_not_applicable=sorted(NOT_APPLICABLE), base_catalogue_entries=base_n, base_catalogue_exhaustive=True, chained_programs=chained, batches=nb, exhaustive=False),
               assumptions=["the typing table in the generator (which types have which handlers / traits) is the reference model", "rustc's diagnostics identify the offending function by the primary span"],
               wall_s=time.time() - t0, violations=len(reported))
     os.makedirs(os.path.join(ROOT, "evidence"), exist_ok=True)
